@@ -191,7 +191,7 @@ Qed.
 Definition reads2 (o : option (bytes * bytes)) (mk : bytes -> val) (r : res val) : Prop :=
   match o with
   | Some (s, rest) => r = Ok (VTuple [VStr s; mk rest])
-  | None => exists e, r = Raise e
+  | None => exists e, r = Raise e /\ (e = TypeError \/ e = UnicodeDecodeError)
   end.
 
 Lemma to_nat_succ z : 0 <= z -> Z.to_nat (1 + z) = S (Z.to_nat z).
@@ -201,7 +201,7 @@ Lemma strunpack8_eq d : reads2 (Wire.strunpack8 d) VBytes (ProtoGen.strunpack8 (
 Proof.
   unfold ProtoGen.strunpack8, Wire.strunpack8, reads2.
   destruct d as [|l t].
-  - eexists. reflexivity.
+  - eexists. split; [reflexivity|left; reflexivity].
   - pose proof (bz_range l) as R.
     cbn [py_slice idx_arg bindR]. rewrite slice_between by lia.
     change (firstn (Z.to_nat (1 - 0)) (skipn (Z.to_nat 0) (l :: t))) with [l].
@@ -212,7 +212,7 @@ Proof.
     rewrite force_str_bytes.
     destruct (utf8_valid (firstn (Z.to_nat (bz l)) t)) eqn:U; cbn [bindR].
     + reflexivity.
-    + eexists. reflexivity.
+    + eexists. split; [reflexivity|right; reflexivity].
 Qed.
 
 Lemma readinfo_eq d : reads2 (Wire.readinfo d) VBytes (ProtoGen.readinfo (VBytes d)).
@@ -220,7 +220,7 @@ Proof.
   unfold ProtoGen.readinfo, Wire.readinfo. pose proof (strunpack8_eq d) as H. unfold reads2 in *.
   destruct (Wire.strunpack8 d) as [[s r]|].
   - rewrite H. reflexivity.
-  - destruct H as [e ->]. eexists. reflexivity.
+  - destruct H as (e & -> & He). eexists. split; [reflexivity|exact He].
 Qed.
 Lemma readauth_eq d : reads2 (Wire.readauth d) VBytes (ProtoGen.readauth (VBytes d)).
 Proof. exact (readinfo_eq d). Qed.
@@ -230,8 +230,8 @@ Proof.
   unfold ProtoGen.readsubscribe, Wire.readsubscribe. pose proof (strunpack8_eq d) as H. unfold reads2 in *.
   destruct (Wire.strunpack8 d) as [[s r]|].
   - rewrite H. cbn [bindR py_untuple2]. rewrite force_str_str, force_str_bytes. cbn [bindR].
-    destruct (utf8_valid r); cbn [bindR]; [reflexivity | eexists; reflexivity].
-  - destruct H as [e ->]. eexists. reflexivity.
+    destruct (utf8_valid r); cbn [bindR]; [reflexivity | eexists; split; [reflexivity|right; reflexivity]].
+  - destruct H as (e & -> & He). eexists. split; [reflexivity|exact He].
 Qed.
 Lemma readunsubscribe_eq d : reads2 (Wire.readunsubscribe d) VStr (ProtoGen.readunsubscribe (VBytes d)).
 Proof. exact (readsubscribe_eq d). Qed.
@@ -239,7 +239,7 @@ Proof. exact (readsubscribe_eq d). Qed.
 Lemma readpublish_eq d :
   match Wire.readpublish d with
   | Some (i, c, p) => ProtoGen.readpublish (VBytes d) = Ok (VTuple [VStr i; VStr c; VBytes p])
-  | None => exists e, ProtoGen.readpublish (VBytes d) = Raise e
+  | None => exists e, ProtoGen.readpublish (VBytes d) = Raise e /\ (e = TypeError \/ e = UnicodeDecodeError)
   end.
 Proof.
   unfold ProtoGen.readpublish, Wire.readpublish. pose proof (strunpack8_eq d) as H. unfold reads2 in *.
@@ -248,8 +248,8 @@ Proof.
     pose proof (strunpack8_eq r) as H2. unfold reads2 in H2.
     destruct (Wire.strunpack8 r) as [[c p]|].
     + rewrite H2. reflexivity.
-    + destruct H2 as [e ->]. eexists. reflexivity.
-  - destruct H as [e ->]. eexists. reflexivity.
+    + destruct H2 as (e & -> & He). eexists. split; [reflexivity|exact He].
+  - destruct H as (e & -> & He). eexists. split; [reflexivity|exact He].
 Qed.
 
 Lemma readerror_eq d :
